@@ -1,7 +1,150 @@
-(** C09 — property theorems (proofs are in C09/Proofs.v). *)
-From Coq Require Import List Arith NArith Bool.
+(** C09 — property theorems (proofs are in C09/Proofs.v).
+
+    Vocabulary: [run (init nw tm) es] is the hub with [nw] workers and worker
+    timeout [tm] after the history [es] of client requests, worker responses
+    (any sender, any id, any status, any number of times), worker and client
+    disconnections and clock ticks; its second component lists everything the
+    hub emitted: [ONotice c rq] / [OFinal c rq st] to client [c] for its
+    request number [rq], [OSend w r rq] to worker [w], and [ODone t timed_out]
+    when task [t] was finished. *)
+From Coq Require Import List Arith NArith Bool Lia.
 From SV Require Import C09.Base C09.Gen C09.Model C09.Proofs.
 Import ListNotations.
 
-Theorem timed_out_flag_is_forwarded : forall b, on_finish_flag b = b.
-Proof. exact flag_forwarded. Qed.
+(** 1. Whatever the workers and clients do, a client request gets at most one
+    final answer (late, duplicate, foreign-id and unknown-id responses
+    included in "whatever"). *)
+Theorem one_verdict : forall nw tm es rq,
+    length (finals_of rq (snd (run (init nw tm) es))) <= 1.
+Proof. exact one_verdict_init. Qed.
+
+(** ... and when a task is finished its verdict is sent to the client that
+    asked (unless that client has disconnected). *)
+Theorem verdict_reaches_client : forall h e h' os' t raw st,
+    step h e = (h', os') -> In (ODone t raw) os' ->
+    In st (verdict (t_kind t) (t_err t) (on_finish_flag raw)) ->
+    In (t_client t) (gone h') \/ In (OFinal (t_client t) (t_rq t) st) os'.
+Proof. exact done_emits_final. Qed.
+
+(** 2. A task with a deadline [d] is finished at the latest by the first loop
+    iteration whose clock is past [d], whatever happened in between — unless
+    the whole hub has been stopped by a stop request. *)
+Theorem no_hang : forall nw tm es0 h0 os0 t d es h os dt h' os',
+    run (init nw tm) es0 = (h0, os0) -> In t (tasks h0) -> t_deadline t = Some d ->
+    run h0 es = (h, os) -> step h (ETick dt) = (h', os') -> (d < now h + dt)%N ->
+    stopping h' = true \/ exists t1 raw, In (ODone t1 raw) (os ++ os') /\ same_task t t1.
+Proof. exact no_hang_lemma. Qed.
+
+(** 3. OK means applied.  If the client of request [rq] is told OK and the
+    task is one whose OK claims application (worker verbs, load-state), then
+    every request that was scattered for [rq] — one per worker alive at
+    dispatch — has been acknowledged by an OK response carrying its id before
+    the verdict ... *)
+Theorem ok_is_sound : forall nw tm es h os e h' os' c rq,
+    run (init nw tm) es = (h, os) -> step h e = (h', os') ->
+    In (OFinal c rq SOk) os' ->
+    (forall t raw, In (ODone t raw) os' -> t_rq t = rq -> t_kind t = KWorker \/ t_kind t = KLoad) ->
+    forall w r, In (OSend w r rq) (os ++ os') -> acked (es ++ [e]) r.
+Proof. exact ok_is_sound_lemma. Qed.
+
+(** ... the task did not time out, no failure was counted, and every expected
+    response was counted as a success. *)
+Theorem ok_verdict_counts : forall nw tm es h os e h' os' t raw,
+    run (init nw tm) es = (h, os) -> step h e = (h', os') ->
+    In (ODone t raw) os' ->
+    t_kind t = KWorker \/ t_kind t = KLoad ->
+    In SOk (verdict (t_kind t) (t_err t) (on_finish_flag raw)) ->
+    raw = false /\ t_err t = 0 /\ t_exp t <= t_ok t /\
+    forall w r, In (OSend w r (t_rq t)) (os ++ os') -> acked (es ++ [e]) r.
+Proof. exact ok_sound_done. Qed.
+
+(** A worker task that timed out, or for which a failure was counted, is
+    answered with a failure. *)
+Theorem timeout_or_failure_is_failure : forall errors timed_out,
+    timed_out = true \/ 1 <= errors ->
+    verdict KWorker errors (on_finish_flag timed_out) = [SFailure] /\
+    (1 <= errors -> verdict KLoad errors (on_finish_flag timed_out) = [SFailure]).
+Proof.
+  intros errors timed_out H. cbn [verdict]. rewrite gen_worker_fails, gen_load_ok, gen_flag. split.
+  - destruct H as [->|H]; [rewrite orb_true_r; reflexivity|].
+    destruct (Nat.ltb_spec 0 errors); [reflexivity|lia].
+  - intros He. destruct (Nat.eqb_spec errors 0); [lia|reflexivity].
+Qed.
+
+(** 4. A response is counted only for the task its request id was issued for:
+    every other task is untouched, and whatever the response makes the hub
+    send goes to the client of that task. *)
+Theorem no_cross_talk : forall nw tm es h os w r st h' os',
+    run (init nw tm) es = (h, os) -> worker_response h w (Some r) st = (h', os') ->
+    (forall t, In t (tasks h) -> t_id t <> tid_of r -> In t (tasks h')) /\
+    (forall t', In t' (tasks h') -> t_id t' <> tid_of r -> In t' (tasks h)) /\
+    (forall o c, In o os' -> out_client o = Some c ->
+                 exists t0, In t0 (tasks h) /\ t_id t0 = tid_of r /\ t_client t0 = c).
+Proof.
+  intros nw tm es h os w r st h' os' Hr. apply no_cross_talk_lemma.
+  apply (inv_wf _ _ _ (reach_inv _ _ _ _ _ Hr)).
+Qed.
+
+(** Late / duplicate responses: the in-flight table only ever refers to live
+    tasks, so a response for a finished (or never issued) id changes nothing
+    and reaches nobody. *)
+Theorem in_flight_only_live_tasks : forall nw tm es h os r tid,
+    run (init nw tm) es = (h, os) -> In (r, tid) (in_flight h) ->
+    tid_of r = tid /\ exists t, In t (tasks h) /\ t_id t = tid.
+Proof. exact purged_after_finish. Qed.
+
+Theorem late_response_ignored : forall nw tm es h os w r st,
+    run (init nw tm) es = (h, os) ->
+    (forall t, In t (tasks h) -> t_id t <> tid_of r) ->
+    worker_response h w (Some r) st = (h, []).
+Proof.
+  intros nw tm es h os w r st Hr. apply late_response_lemma.
+  apply (inv_wf _ _ _ (reach_inv _ _ _ _ _ Hr)).
+Qed.
+
+(** The halves the code does not give (open findings, kept visible). *)
+
+(** query / status / metrics tasks answer OK although a failure was counted *)
+Theorem query_ok_unsound_refuted :
+  exists es, In (OFinal 0 0 SOk) (snd (run (init 1 1000) es)) /\
+             In (EResp 0 (Some (0, 0, 0)) SFailure) es /\ ~ acked es (0, 0, 0).
+Proof.
+  exists [EClient 0 VQuery; EResp 0 (Some (0, 0, 0)) SFailure]. split; [|split].
+  - vm_compute. right. right. left. reflexivity.
+  - right. left. reflexivity.
+  - intros [w [H|[H|[]]]]; discriminate.
+Qed.
+
+(** a task without deadline waits forever for a worker that has gone *)
+Theorem no_deadline_hang_refuted :
+  forall n, finals_of 0 (snd (run (init 1 1000) ([EClient 0 (VLoad 1); EWorkerClosed 0] ++ repeat (ETick 5000) n))) = [].
+Proof.
+  intros n. rewrite run_app, hung_reached.
+  pose proof (hung_run n 0%N) as H. destruct (run (hung 0) (repeat (ETick 5000) n)) as [h2 o2].
+  cbn [snd] in *. subst o2. reflexivity.
+Qed.
+
+(** Non-vacuity: concrete reachable histories on which the hypotheses hold. *)
+Example one_verdict_nonvacuous :
+  finals_of 0 (snd (run (init 2 1000)
+     [EClient 0 VWorker; EResp 0 (Some (0,0,0)) SOk; EResp 0 (Some (0,0,0)) SOk;
+      EResp 1 (Some (1,0,0)) SOk; EResp 1 (Some (1,0,0)) SFailure])) = [SOk].
+Proof. vm_compute. reflexivity. Qed.
+
+Example no_hang_nonvacuous :
+  let '(h0, _) := run (init 2 1000) [EClient 0 VWorker] in
+  exists t, In t (tasks h0) /\ t_deadline t = Some 1000%N /\
+  let '(h, _) := run h0 [EResp 0 (Some (0,0,0)) SOk; EWorkerClosed 1] in
+  finals_of 0 (snd (step h (ETick 1001))) = [SFailure].
+Proof. vm_compute. eexists. split; [left; reflexivity|]. split; reflexivity. Qed.
+
+Example ok_is_sound_nonvacuous :
+  let '(h, os) := run (init 2 1000) [EClient 0 (VLoad 2); EResp 0 (Some (0,0,1)) SOk; EResp 1 (Some (1,0,1)) SOk;
+                                      EResp 1 (Some (1,0,2)) SOk] in
+  In (OFinal 0 0 SOk) (snd (step h (EResp 0 (Some (0,0,2)) SOk))) /\ length (filter (fun o => match o with OSend _ _ _ => true | _ => false end) os) = 4.
+Proof. vm_compute. split; [left; reflexivity|reflexivity]. Qed.
+
+Example no_cross_talk_nonvacuous :
+  let '(h, _) := run (init 1 1000) [EClient 0 VWorker; EClient 1 VWorker] in
+  length (tasks h) = 2 /\ snd (worker_response h 0 (Some (0,1,0)) SProcessing) = [ONotice 1 1].
+Proof. vm_compute. split; reflexivity. Qed.
